@@ -212,11 +212,59 @@ def r20f(ctx, rep, rule="R20f"):
     rep.floor(rule, "negative exits of the highlighter", n, 3)
 
 
+IDENTITY_CONV = re.compile(
+    r"(as std::ops::Deref>::deref$|as std::borrow::ToOwned>::to_owned$|ToOwned for str>::to_owned$|Cow<.*>::into_owned$|"
+    r"as std::clone::Clone>::clone$|as std::string::ToString>::to_string$|as std::convert::(From|Into)<.*>>::(from|into)$|"
+    r"as std::convert::AsRef<str>>::as_ref$|as std::borrow::Borrow<str>>::borrow$|std::string::String::as_str$|"
+    r"marwood_wasm::HighlightResult::new$|as std::ops::Drop>::drop$|std::mem::drop$|std::string::String::len$|str>::len$)")
+
+
+def r20h(ctx, rep, rule="R20h"):
+    """front ends hand the highlighter's text on unchanged"""
+    from ..flow import Labels
+    facts, cg = ctx["facts"], ctx["cg"]
+    rep.rule(rule, "the text reaches the terminal as the highlighter returned it: in every function outside marwood::syntax that calls "
+             "ReplHighlighter::highlight (the rustyline and wasm front ends), the result flows to the function's own result only "
+             "through identity conversions (deref, to_owned, into_owned, clone, From/Into, the HighlightResult constructor). A call "
+             "that rewrites the string on the way (replace, trim, case mapping, slicing, formatting) alters user text that merely "
+             "resembles the pattern — the statement allows one underline pair and nothing else.")
+    HL = "marwood::syntax::ReplHighlighter::highlight"
+    users = sorted(p for p in cg.callers(HL) if not p.startswith("marwood::syntax::"))
+    rep.floor(rule, "front-end callers of ReplHighlighter::highlight", len(users), 2)
+    for p in users:
+        f = facts.fns[p]
+        init = {}
+        for bb, t in f.calls():
+            if callee(t) == HL:
+                init.setdefault(t["dest"]["l"], set()).add("hl")
+        lab = Labels(f, init=init)
+        bad = []
+        n = 0
+        for bb, t in f.calls():
+            c = callee(t)
+            if c == HL:
+                continue
+            al = lab.call_arg_labels(t, bb)
+            if not any("hl" in a for a in al):
+                continue
+            n += 1
+            fa = t.get("fnargs") or c or ""
+            if not (IDENTITY_CONV.search(c or "") or IDENTITY_CONV.search(fa)):
+                bad.append((c, t["loc"]))
+        key = "%s|%s" % (rule, f.short)
+        (rep.ok if not bad else rep.fail)(
+            rule, key, "%s passes the highlighted text on through %d identity conversion(s)" % (f.short, n) if not bad else
+            "%s passes the highlighter's result through %s before returning it: text the user typed is rewritten wherever it "
+            "resembles the pattern, so the line shown differs from the text by more than one escape pair" % (
+                f.short, ", ".join(sorted({b[0] or "?" for b in bad}))), [b[1] for b in bad] or [f.span])
+
+
 def run(ctx, rep):
     tables.r20a(ctx, rep)
     r20b(ctx, rep)
     r20c(ctx, rep)
     r20f(ctx, rep)
+    r20h(ctx, rep)
     tables.r11f(ctx, rep, rule="R20d")
     tables.r11j(ctx, rep, rule="R20g")
     from . import C11
